@@ -105,6 +105,7 @@ type mSess struct {
 	urr    map[uint32]*mURR
 	dpURR  map[uint32]bool // URR believed present in the data plane (no faults)
 	taken  bool            // its control was taken over by another node id at some point
+	addr   string          // address of the peer it was established by
 }
 
 type mNode struct {
@@ -159,6 +160,19 @@ func usageIEs(m *PMsg) []*IE {
 
 func sessEqual(a, b *pfcp.VerifSess) bool { return reflect.DeepEqual(a, b) }
 
+// twins: the live sessions of s's peer that carry s's CP-SEID (s included when alive)
+func (a *Analyzer) twins(s *mSess) []*mSess {
+	var out []*mSess
+	// the peer is matched by address; a taken-over session keeps the address of the node it came from
+	for _, s2 := range a.sess {
+		if s2.alive && s2.cp == s.cp && (s2.node == s.node || (s.addr != "" && s2.addr == s.addr)) {
+			out = append(out, s2)
+		}
+	}
+	sort.Slice(out, func(i, j int) bool { return out[i].up < out[j].up })
+	return out
+}
+
 func liveSet(sn *pfcp.VerifSnap) map[uint64]*pfcp.VerifSess {
 	out := map[uint64]*pfcp.VerifSess{}
 	for _, s := range sn.Slots {
@@ -196,6 +210,7 @@ func Analyze(tr *Trace) *Analyzer {
 			continue
 		}
 		// ---- classify the request against the model's pre-state ----
+		var seid0Amb []*mSess        // SEID-0 answer with more than one matching session: outcome read from the snapshot
 		var target *mSess            // session addressed (mod/del/urep) when live
 		targets := map[uint64]bool{} // UP SEIDs this step may touch
 		ending := map[uint64]bool{}  // sessions that end in this step
@@ -225,8 +240,20 @@ func Analyze(tr *Trace) *Analyzer {
 			if s, ok := a.byUP[st.UP]; ok && st.UP != 0 {
 				target = s
 				targets[s.up] = true
-				if op.K == "del" || (op.K == "urep" && op.Answer == "seid0" && len(st.Reports) > 0) {
+				if op.K == "del" {
 					ending[s.up] = true
+				}
+				if op.K == "urep" && op.Answer == "seid0" && len(st.Reports) > 0 {
+					// a SEID-0 answer ends "the session whose CP-SEID and peer match": with several live sessions of
+					// one peer under one CP-SEID (stale handles can produce that) either may go
+					if twins := a.twins(s); len(twins) > 1 {
+						for _, s2 := range twins {
+							targets[s2.up] = true
+						}
+						seid0Amb = twins
+					} else {
+						ending[s.up] = true
+					}
 				}
 			}
 			if op.K != "urep" && op.K != "dldr" {
@@ -251,6 +278,11 @@ func Analyze(tr *Trace) *Analyzer {
 						targets[s2.up] = true
 					}
 				}
+			case s0.alive && len(a.twins(s0)) > 1:
+				for _, s2 := range a.twins(s0) {
+					lateAmb = append(lateAmb, s2)
+					targets[s2.up] = true
+				}
 			case s0.alive:
 				target = s0
 				targets[s0.up] = true
@@ -258,11 +290,9 @@ func Analyze(tr *Trace) *Analyzer {
 			default:
 				// the session the report was about is gone; a later session of the same peer with the same CP-SEID
 				// matches the answer just as well (either outcome is accepted for those)
-				for _, s2 := range a.sess {
-					if s2.alive && s2.node == s0.node && s2.cp == s0.cp {
-						lateAmb = append(lateAmb, s2)
-						targets[s2.up] = true
-					}
+				for _, s2 := range a.twins(s0) {
+					lateAmb = append(lateAmb, s2)
+					targets[s2.up] = true
 				}
 			}
 		}
@@ -414,6 +444,9 @@ func Analyze(tr *Trace) *Analyzer {
 								}
 							}
 							s := newMSess(op.Sess, op.NodeID, op.CP, upseid)
+							if n := a.nodes[op.NodeID]; n != nil {
+								s.addr = n.addr // the peer address answers are matched against; a take-over does not change it
+							}
 							a.sess[op.Sess] = s
 							a.byUP[upseid] = s
 							target = s
@@ -619,6 +652,16 @@ func Analyze(tr *Trace) *Analyzer {
 			}
 			if op.Answer == "ignore" && len(st.Reports) > 0 {
 				a.outst[i] = target
+			}
+			if len(seid0Amb) > 0 {
+				post := liveSet(st.Post)
+				for _, s2 := range seid0Amb {
+					if _, still := post[s2.up]; !still {
+						s2.alive = false
+						delete(a.byUP, s2.up)
+						a.Teardowns++
+					}
+				}
 			}
 		case "lateans":
 			if target != nil && ending[target.up] {
